@@ -192,6 +192,15 @@ theorem C04_multi_settled_new (cfgs : List STCfg) (hwf : ∀ c ∈ cfgs, WfCfg c
   unfold funcRuns Spec.funcRuns
   rw [show (exec New.handle cfgs (start hub) (settled cfgs.length ops)).log = Spec.log cfgs hub.live ops from this]
 
+/-- **kwargs of a run delayed by `state_hold`** (both subsystems): the delayed run receives exactly what an immediate
+run for the same event receives – trigger_type, var_name, value, old_value of the event that started the hold,
+overridden / extended by the decorator's `kwargs`.  (In the legacy loop this needs BOTH update sites: merging only in
+front of `call_action` would deliver the bare event arguments – second part.) -/
+theorem C04_held_kwargs (c : STCfg) (ev : Ev) :
+    Legacy.heldRun c ev = mkRun c ev ∧ New.heldRun c ev = mkRun c ev ∧
+      Legacy.heldRunF false c ev = ⟨ev.ctx, baseArgs ev⟩ := by
+  refine ⟨?_, ?_, ?_⟩ <;> simp [Legacy.heldRun, Legacy.heldRunF, New.heldRun, mkRun, dictUpdate]
+
 /-! ## Witnesses of the deviations of the code as it is (replayed on the real code by the check) -/
 
 def nA : Name := ⟨"pyscript.a", []⟩
